@@ -44,6 +44,8 @@ typedef struct _operator
   int precedence;
 } Operator;
 
+#define MAX_IFDEF_PARENS 512
+
 static int get_operator(char *token, Operator *oper)
 {
   if (IS_TOKEN(token,'>'))
@@ -267,6 +269,13 @@ printf("debug> #if eval_operation() @EOL  n=%d precedence=%d state=%d\n", n, pre
           else
         if (IS_TOKEN(token,'('))
         {
+          // Every open parenthesis is a recursion of this function.
+          if (paren_count >= MAX_IFDEF_PARENS)
+          {
+            print_error(asm_context, "Parentheses nested too deep");
+            return -1;
+          }
+
           if (parse_ifdef_expression(asm_context, &n, paren_count + 1, PREC_OR, 0) == -1)
           {
             return -1;
